@@ -20,6 +20,7 @@ Oracle (independent of the Lean model, computed by the family with go/types on t
        token and action result carries an id)
 """
 import common
+import lrcommon
 
 LEVEL = "proof"
 FAMILY = "assign"
@@ -130,6 +131,10 @@ def run(r):
     n = 36 if r.tier == "quick" else 320
     res = r.run_family(FAMILY, n=n, timeout=7200)
     analyse(r, res)
+    # "every action parameter holds exactly the value produced for its term" on RECOVERY paths and for parameters that are
+    # interface-typed (one method shared by an `@error …` production and a `TOKEN …` sibling): the curated grammars of family
+    # lrgen (they always run first) against the runtime model whose action log is proved for validated tables
+    lrcommon.run_lr(r, "C06", n_quick=1, n_thorough=20, also=())
     r.assumptions += ASSUMPTIONS
     return r.finish(LEVEL,
                     "theorems: decision logic of AssignActions = the property's clauses for every grammar, method table and every pair of relations (assignable, identical); "
